@@ -58,6 +58,50 @@ func wrapperArgPaths(pc *pathCtx, call ssa.CallInstruction, target *ssa.Function
 	return out
 }
 
+// frontOp is one call in fn that reaches the list primitive prim (moveAfter / addAfter)
+// - directly or through a thin wrapper (moveFront / addFront) - with the sentinel
+// &...root as its anchor; args are the caller-side access paths of the requested
+// arguments of the primitive.
+type frontOp struct {
+	call ssa.CallInstruction
+	args []string
+}
+
+func frontOps(x *pathCtx, fn, prim *ssa.Function, argIdx ...int) []frontOp {
+	var out []frontOp
+	for _, in := range path.Instrs(fn) {
+		call, ok := in.(ssa.CallInstruction)
+		if !ok {
+			continue
+		}
+		anchors := wrapperArgPaths(x, call, prim, 1, 0)
+		if len(anchors) != 1 || !strings.HasPrefix(anchors[0], "&") || !strings.HasSuffix(anchors[0], ".root") {
+			continue
+		}
+		fo := frontOp{call: call}
+		okA := true
+		for _, i := range argIdx {
+			a := wrapperArgPaths(x, call, prim, i, 0)
+			if len(a) != 1 {
+				okA = false
+				break
+			}
+			fo.args = append(fo.args, a[0])
+		}
+		if okA {
+			out = append(out, fo)
+		}
+	}
+	return out
+}
+
+func callsToOpt(fn, callee *ssa.Function) []ssa.CallInstruction {
+	if fn == nil {
+		return nil
+	}
+	return callsTo(fn, callee)
+}
+
 func runC07(p *core.Program, r *core.Report) {
 	c := rc{p, r}
 	const T = "cache.(*LRUCache)."
@@ -69,8 +113,14 @@ func runC07(p *core.Program, r *core.Report) {
 	}
 	newLRU := c.fn("cache.NewLRU")
 	lf := map[string]*ssa.Function{}
-	for _, n := range []string{"moveAfter", "moveFront", "addAfter", "addFront", "last", "first", "remove", "removeLast"} {
+	for _, n := range []string{"moveAfter", "addAfter", "last", "first", "remove"} {
 		lf[n] = c.fn(L + n)
+	}
+	// thin wrappers: may have been inlined into their callers (the rules about callers
+	// look through them either way)
+	optional := map[string]bool{"moveFront": true, "addFront": true, "removeLast": true}
+	for n := range optional {
+		lf[n] = p.Func(L + n)
 	}
 	newList := c.fn("cache.newLRUList")
 	for _, f := range m {
@@ -78,8 +128,8 @@ func runC07(p *core.Program, r *core.Report) {
 			return
 		}
 	}
-	for _, f := range lf {
-		if f == nil {
+	for n, f := range lf {
+		if f == nil && !optional[n] {
 			return
 		}
 	}
@@ -173,6 +223,9 @@ func runC07(p *core.Program, r *core.Report) {
 	// moveFront/addFront insert behind &root
 	for _, pr := range [][2]string{{"moveFront", "moveAfter"}, {"addFront", "addAfter"}} {
 		w, prim := lf[pr[0]], lf[pr[1]]
+		if w == nil {
+			continue
+		}
 		calls := callsTo(w, prim)
 		ok := len(calls) == 1
 		got := ""
@@ -185,12 +238,14 @@ func runC07(p *core.Program, r *core.Report) {
 	// moveFront forwards its node unchanged; addFront forwards key and value and returns the new node
 	{
 		w := lf["moveFront"]
-		for _, call := range callsTo(w, lf["moveAfter"]) {
-			got := newPathCtx(p).path(call.Common().Args[2])
-			c.ob("AG7", p.FuncName(w), "moved node", p.InstrPos(call), got == "nd" || got == w.Params[1].Name(), "moveFront must move the node it was given")
+		if w != nil {
+			for _, call := range callsTo(w, lf["moveAfter"]) {
+				got := newPathCtx(p).path(call.Common().Args[2])
+				c.ob("AG7", p.FuncName(w), "moved node", p.InstrPos(call), got == "nd" || got == w.Params[1].Name(), "moveFront must move the node it was given")
+			}
 		}
 		w = lf["addFront"]
-		for _, call := range callsTo(w, lf["addAfter"]) {
+		for _, call := range callsToOpt(w, lf["addAfter"]) {
 			a := call.Common().Args
 			okA := len(a) == 4 && a[2] == ssa.Value(w.Params[1]) && a[3] == ssa.Value(w.Params[2])
 			c.ob("PV2", p.FuncName(w), "key/value forwarded", p.InstrPos(call), okA, "addFront must pass its key and value, in this order, to addAfter")
@@ -272,8 +327,8 @@ func runC07(p *core.Program, r *core.Report) {
 				// Get, GetOldest: the move (if any) targets the designated entry and dominates the return
 				if wantRefresh[s.name] {
 					okMv := false
-					for _, call := range callsTo(fn, lf["moveFront"]) {
-						tgt := x.path(call.Common().Args[1])
+					for _, fo := range frontOps(x, fn, lf["moveAfter"], 2) {
+						call, tgt := fo.call, fo.args[0]
 						if tgt == s.origin && call.Block().Dominates(b) {
 							okMv = true
 						}
@@ -341,9 +396,10 @@ func runC07(p *core.Program, r *core.Report) {
 		keyP, valP := paramByName(fn, "key"), paramByName(fn, "value")
 		// existing-key path: moveFront(c.items[key]) and value overwrite, both under ok
 		nMove := 0
-		for _, call := range callsTo(fn, lf["moveFront"]) {
+		for _, fo := range frontOps(x, fn, lf["moveAfter"], 2) {
+			call := fo.call
 			nMove++
-			tgt := x.path(call.Common().Args[1])
+			tgt := fo.args[0]
 			okG := boolGuard(fn, call.Block(), func(v ssa.Value) bool { return x.path(v) == "ok(c.items[key])" }, true)
 			c.ob("AG7", fname, "promoted node", p.InstrPos(call), tgt == "c.items[key]" && okG, fmt.Sprintf("Add must promote the existing entry of its key under the map-hit edge (target %q)", tgt))
 		}
@@ -369,8 +425,8 @@ func runC07(p *core.Program, r *core.Report) {
 					stored = true
 				}
 			}
-			for _, call := range callsTo(fn, lf["moveFront"]) {
-				if call.Block() == b || call.Block().Dominates(b) {
+			for _, fo := range frontOps(x, fn, lf["moveAfter"], 2) {
+				if fo.call.Block() == b || fo.call.Block().Dominates(b) {
 					moved = true
 				}
 			}
@@ -397,11 +453,12 @@ func runC07(p *core.Program, r *core.Report) {
 			okV := false
 			var af *ssa.Call
 			for _, o := range path.Origins(ins.Value) {
-				if call, ok := o.(*ssa.Call); ok && path.StaticCallee(call) == lf["addFront"] {
-					a := call.Call.Args
-					if len(a) == 3 && a[1] == ssa.Value(keyP) && a[2] == ssa.Value(valP) && x.path(a[0]) == "c.evictList" {
-						okV = true
-						af = call
+				if call, ok := o.(*ssa.Call); ok {
+					for _, fo := range frontOps(x, fn, lf["addAfter"], 2, 3) {
+						if fo.call == ssa.CallInstruction(call) && keyP != nil && valP != nil && fo.args[0] == keyP.Name() && fo.args[1] == valP.Name() {
+							okV = true
+							af = call
+						}
 					}
 				}
 			}
@@ -561,10 +618,10 @@ func runC07(p *core.Program, r *core.Report) {
 				}
 				cal := path.StaticCallee(x)
 				if f.Signature.Recv() != nil && namedOf(f.Signature.Recv().Type()) != nil && namedOf(f.Signature.Recv().Type()).Obj().Name() == "LRUCache" {
-					if cal == lf["remove"] || cal == lf["removeLast"] {
+					if cal != nil && (cal == lf["remove"] || cal == lf["removeLast"]) {
 						unl++
 					}
-					if cal == lf["addFront"] || cal == lf["addAfter"] {
+					if cal != nil && (cal == lf["addFront"] || cal == lf["addAfter"]) {
 						add++
 					}
 				}
